@@ -340,6 +340,9 @@ thread_local! {
     /// `<id>~c`: every combinator value the interpreter builds is cloned (through its own `Clone` impl) and the clone is
     /// what gets boxed and run — the original is dropped first
     pub static CLONE_FL: std::cell::Cell<bool> = const { std::cell::Cell::new(false) };
+    /// `<id>~k<N>`: `collect::<Vec<_>>()` goes through the N-th order-preserving `Container` instead
+    /// (1 LinkedList, 2 VecDeque, 3 Box<Vec>, 4 RefCell<Vec>, 5 Cell<Vec>)
+    pub static COLL_FL: std::cell::Cell<u8> = const { std::cell::Cell::new(0) };
 }
 
 pub trait Bx<'src, I: HInput<'src>, E: HErr<'src, I>>: Parser<'src, I, Val, Ex<E>> + Clone + Sized + 'src {
@@ -823,9 +826,15 @@ impl CollectK {
         match self.k {
             Coll::Vec | Coll::String => {
                 let k = self.k.clone();
-                p.collect::<Vec<T>>()
-                    .map(move |vs| collect_out(&k, vs.into_iter().map(IntoVal::into_val).collect()))
-                    .bx()
+                let out = move |vs: Vec<T>| collect_out(&k, vs.into_iter().map(IntoVal::into_val).collect());
+                match COLL_FL.with(|f| f.get()) {
+                    1 => p.collect::<std::collections::LinkedList<T>>().map(move |l| out(l.into_iter().collect())).bx(),
+                    2 => p.collect::<std::collections::VecDeque<T>>().map(move |l| out(l.into_iter().collect())).bx(),
+                    3 => p.collect::<Box<Vec<T>>>().map(move |l| out(*l)).bx(),
+                    4 => p.collect::<std::cell::RefCell<Vec<T>>>().map(move |l| out(l.into_inner())).bx(),
+                    5 => p.collect::<std::cell::Cell<Vec<T>>>().map(move |l| out(l.into_inner())).bx(),
+                    _ => p.collect::<Vec<T>>().map(out).bx(),
+                }
             }
             Coll::Count => p.count().map(|n| Val::Nat(n as u64)).bx(),
             Coll::Unit => p.collect::<()>().to(Val::Unit).bx(),
